@@ -3,7 +3,7 @@ use std::marker::PhantomData;
 #[allow(unused_imports)] use any_vec::traits::{Cloneable, None as TNone};
 #[allow(unused_imports)] use anyvec_mc::elem::*;
 use anyvec_mc::exec::{Cfg, Runner};
-#[allow(unused_imports)] use anyvec_mc::track::{Track, TrackFixed, TrackTight};
+#[allow(unused_imports)] use anyvec_mc::track::{Track, TrackFence, TrackFixed, TrackTight};
 use anyvec_mc::Entry;
 #[cfg(feature = "alloc")] #[allow(unused_imports)] use any_vec::mem::Heap;
 
@@ -17,6 +17,8 @@ fn cfgs() -> Vec<Entry> {
     c!(v, true,"general",D12D,Track,dyn Cloneable + Send);
     c!(v, true,"general",W8D,TrackTight,dyn Cloneable);
     c!(v, true,"general",T3D,TrackTight,dyn Cloneable);
+    c!(v, true,"general",W8D,TrackFence<false>,dyn Cloneable);
+    c!(v, true,"general",B1D,TrackFence<true>,dyn Cloneable);
     c!(v, true,"fixed",W8D,Stack<32>,dyn Cloneable);
     c!(v, true,"fixed",B1D,StackN<3, 3>,dyn Cloneable);
     c!(v, true,"fixed",W8D,TrackFixed<4>,dyn Cloneable);
